@@ -1,5 +1,6 @@
 // C08 harness: drives romea::core::KdTree<PointType> (all eight instantiations) and dumps the
-// nanoflann index actually built, through the public `kdtree_.index->saveIndex(FILE*)`.
+// nanoflann index actually built, read through nanoflann's own typed members (`root_node`, `Node::sub.divfeat /
+// divlow / divhigh`, `Node::lr.left / right`, `child1 / child2`, `root_bbox`, `vind`) -- see `Peek` below.
 //
 //   kd.build T n c...      T in {c2f,c2d,c3f,c3d,h2f,h2d,h3f,h3d}; n*CARTESIAN_DIM coordinates
 //                          -> ok n DIM leafmax B (low high)*DIM V vind*n T preorder-tree
@@ -18,25 +19,81 @@ using vp::Toks;
 namespace
 {
 
-// byte layout of nanoflann's (protected) KDTreeSingleIndexAdaptor::Node for IndexType = size_t
-template<typename D>
-struct NodeMirror
+// Typed view of nanoflann's PROTECTED index state (no byte-layout assumption: padding, field order and the
+// width of a field may change without the observation changing).  `Peek<Index>` derives from the index class
+// only to be allowed to form pointers to its protected members (`&Peek::root_node` has type
+// `NodePtr Index::*` and may be applied to any `Index` object); no `Peek` object is ever created.
+// Every accessor exists in two overloads: the first is viable iff the member exists with a usable type, the
+// second reports "not observable" -- the dump then carries a `?name` token (a correspondence disagreement
+// at stage B), never an exception.
+template<class Index>
+struct Peek : Index
 {
-  union {
-    struct { size_t left, right; } lr;
-    struct { int divfeat; D divlow, divhigh; } sub;
-  };
-  void * child1, * child2;
-};
+  // ---- index-level members
+  template<class P> static auto root(const Index & ix, int)->decltype(&*(ix.*(&P::root_node)))
+  {return ix.*(&P::root_node);}
+  template<class P> static const void * root(const Index &, long) {return nullptr;}
+  template<class P> static constexpr auto hasRoot(int)->decltype(&P::root_node, true) {return true;}
+  template<class P> static constexpr bool hasRoot(long) {return false;}
 
-struct Reader
-{
-  const char * p; size_t left;
-  template<typename T> T get()
+  template<class P> static auto size(const Index & ix, unsigned long long & v, int)
+  ->decltype(static_cast<unsigned long long>(ix.*(&P::m_size)), true)
+  {v = static_cast<unsigned long long>(ix.*(&P::m_size)); return true;}
+  template<class P> static bool size(const Index &, unsigned long long &, long) {return false;}
+
+  template<class P> static auto dimension(const Index & ix, long long & v, int)
+  ->decltype(static_cast<long long>(ix.*(&P::dim)), true)
+  {v = static_cast<long long>(ix.*(&P::dim)); return true;}
+  template<class P> static bool dimension(const Index &, long long &, long) {return false;}
+
+  template<class P> static auto leafMax(const Index & ix, unsigned long long & v, int)
+  ->decltype(static_cast<unsigned long long>(ix.*(&P::m_leaf_max_size)), true)
+  {v = static_cast<unsigned long long>(ix.*(&P::m_leaf_max_size)); return true;}
+  template<class P> static bool leafMax(const Index &, unsigned long long &, long) {return false;}
+
+  template<class P> static auto bbox(const Index & ix, size_t dims, std::vector<double> & v, int)
+  ->decltype(static_cast<double>((ix.*(&P::root_bbox))[0].low), static_cast<double>((ix.*(&P::root_bbox))[0].high), true)
   {
-    if (left < sizeof(T)) { throw std::runtime_error("short index dump"); }
-    T v; std::memcpy(&v, p, sizeof(T)); p += sizeof(T); left -= sizeof(T); return v;
+    const auto & bb = ix.*(&P::root_bbox);
+    if (bb.size() != dims) {return false;}
+    for (size_t i = 0; i < dims; ++i) {
+      v.push_back(static_cast<double>(bb[i].low)); v.push_back(static_cast<double>(bb[i].high));
+    }
+    return true;
   }
+  template<class P> static bool bbox(const Index &, size_t, std::vector<double> &, long) {return false;}
+
+  template<class P> static auto perm(const Index & ix, std::vector<unsigned long long> & v, int)
+  ->decltype(static_cast<unsigned long long>((ix.*(&P::vind))[0]), true)
+  {
+    for (const auto & x : ix.*(&P::vind)) {v.push_back(static_cast<unsigned long long>(x));}
+    return true;
+  }
+  template<class P> static bool perm(const Index &, std::vector<unsigned long long> &, long) {return false;}
+
+  // ---- node fields (N = the node type, deduced from root_node; never named here)
+  template<class N> static auto children(const N & n, const N * & c1, const N * & c2, int)
+  ->decltype(static_cast<const N *>(n.child1), static_cast<const N *>(n.child2), true)
+  {c1 = n.child1; c2 = n.child2; return true;}
+  template<class N> static bool children(const N &, const N * &, const N * &, long) {return false;}
+
+  template<class N> static auto range(const N & n, unsigned long long & l, unsigned long long & r, int)
+  ->decltype(static_cast<unsigned long long>(n.lr.left), static_cast<unsigned long long>(n.lr.right), true)
+  {l = static_cast<unsigned long long>(n.lr.left); r = static_cast<unsigned long long>(n.lr.right); return true;}
+  template<class N> static bool range(const N &, unsigned long long &, unsigned long long &, long) {return false;}
+
+  template<class N> static auto feat(const N & n, long long & f, int)
+  ->decltype(static_cast<long long>(n.sub.divfeat), true)
+  {f = static_cast<long long>(n.sub.divfeat); return true;}
+  template<class N> static bool feat(const N &, long long &, long) {return false;}
+
+  // the split bounds, whatever arithmetic type they are stored in, converted to double
+  template<class N> static auto low(const N & n, double & v, int)->decltype(static_cast<double>(n.sub.divlow), true)
+  {v = static_cast<double>(n.sub.divlow); return true;}
+  template<class N> static bool low(const N &, double &, long) {return false;}
+  template<class N> static auto high(const N & n, double & v, int)->decltype(static_cast<double>(n.sub.divhigh), true)
+  {v = static_cast<double>(n.sub.divhigh); return true;}
+  template<class N> static bool high(const N &, double &, long) {return false;}
 };
 
 struct Session
@@ -78,43 +135,59 @@ struct SessionT : Session
     tree.reset(new KdTree<PointType>(pts));
   }
 
-  void dumpTree(Reader & r, std::string & o)
+  using Index = typename NanoFlannAdaptor<PointType, nanoflann::metric_L2>::Index;
+  using View = Peek<Index>;
+
+  // a stored value of whatever width, printed in the protocol's format for this point type (binary32 values
+  // are exact in double, so the round trip through double changes nothing on the unchanged library)
+  static std::string fmtStored(double v) {return vp::fmtF(static_cast<Scalar>(v));}
+
+  template<class N>
+  static void dumpTree(const N * node, size_t depth, std::string & o)
   {
-    auto node = r.get<NodeMirror<Scalar>>();
-    if (node.child1 == nullptr && node.child2 == nullptr) {
-      o += " L " + std::to_string(node.lr.left) + " " + std::to_string(node.lr.right);
+    if (node == nullptr) {o += " NULL"; return;}
+    if (depth > 20000) {o += " ?depth"; return;}
+    const N * c1 = nullptr; const N * c2 = nullptr;
+    if (!View::children(*node, c1, c2, 0)) {o += " ?children"; return;}
+    if (c1 == nullptr && c2 == nullptr) {
+      unsigned long long l = 0, r = 0;
+      if (View::range(*node, l, r, 0)) {o += " L " + std::to_string(l) + " " + std::to_string(r);} else {o += " L ?lr";}
       return;
     }
-    o += " N " + std::to_string(node.sub.divfeat) + " " + vp::fmtF(node.sub.divlow) + " " + vp::fmtF(node.sub.divhigh);
-    // save_tree writes child1's subtree, then child2's (each only when non-null)
-    if (node.child1 != nullptr) { dumpTree(r, o); } else { o += " NULL"; }
-    if (node.child2 != nullptr) { dumpTree(r, o); } else { o += " NULL"; }
+    long long f = 0; double lo = 0, hi = 0;
+    o += " N";
+    if (View::feat(*node, f, 0)) {o += " " + std::to_string(f);} else {o += " ?divfeat";}
+    if (View::low(*node, lo, 0)) {o += " " + fmtStored(lo);} else {o += " ?divlow";}
+    if (View::high(*node, hi, 0)) {o += " " + fmtStored(hi);} else {o += " ?divhigh";}
+    dumpTree(c1, depth + 1, o);     // preorder: child1's subtree, then child2's
+    dumpTree(c2, depth + 1, o);
   }
+  static void dumpTree(const void *, size_t, std::string & o) {o += " ?root_node";}
 
   std::string dump() override
   {
-    char * buf = nullptr; size_t len = 0;
-    FILE * f = open_memstream(&buf, &len);
-    if (!f) { throw std::runtime_error("open_memstream"); }
-    tree->kdtree_.index->saveIndex(f);
-    std::fclose(f);
-    std::unique_ptr<char, decltype(&std::free)> hold(buf, &std::free);
-    Reader r{buf, len};
-    size_t m_size = r.get<size_t>();
-    int dim = r.get<int>();
-    std::string o = "ok " + std::to_string(m_size) + " " + std::to_string(dim);
-    std::string bb;
-    for (size_t i = 0; i < SIZE; ++i) {
-      Scalar lo = r.get<Scalar>(); Scalar hi = r.get<Scalar>();
-      bb += " " + vp::fmtF(lo) + " " + vp::fmtF(hi);
+    const Index & ix = *tree->kdtree_.index;
+    unsigned long long m_size = 0, leaf = 0; long long dim = 0;
+    std::string o = "ok";
+    if (View::template size<View>(ix, m_size, 0)) {o += " " + std::to_string(m_size);} else {o += " ?m_size";}
+    if (View::template dimension<View>(ix, dim, 0)) {o += " " + std::to_string(dim);} else {o += " ?dim";}
+    if (View::template leafMax<View>(ix, leaf, 0)) {o += " " + std::to_string(leaf);} else {o += " ?m_leaf_max_size";}
+    o += " B";
+    std::vector<double> bb;
+    if (View::template bbox<View>(ix, SIZE, bb, 0)) {
+      for (double v : bb) {o += " " + fmtStored(v);}
+    } else {
+      o += " ?root_bbox";
     }
-    size_t leaf = r.get<size_t>();
-    o += " " + std::to_string(leaf) + " B" + bb + " V";
-    size_t nv = r.get<size_t>();
-    for (size_t i = 0; i < nv; ++i) { o += " " + std::to_string(r.get<size_t>()); }
+    o += " V";
+    std::vector<unsigned long long> vind;
+    if (View::template perm<View>(ix, vind, 0)) {
+      for (unsigned long long v : vind) {o += " " + std::to_string(v);}
+    } else {
+      o += " ?vind";
+    }
     o += " T";
-    dumpTree(r, o);
-    if (r.left != 0) { o += " TRAILING " + std::to_string(r.left); }
+    if (View::template hasRoot<View>(0)) {dumpTree(View::template root<View>(ix, 0), 0, o);} else {o += " ?root_node";}
     return o;
   }
 
